@@ -154,6 +154,11 @@ def tamper(log, rnd):
             out.append(('permutation@' + k, dict(log, **{k: list(reversed(ids))})))
             out.append(('substitution@' + k, dict(log, **{k: ['POP' if i == 0 else x for i, x in enumerate(ids)]})))
             out.append(('emptied@' + k, dict(log, **{k: []})))
+            # an instruction that ends a block, as a foreign id in the middle / at the start of a sequence (seed C11-6): such ids are
+            # never part of a specification, only the comparison of the final instructions can see them
+            for h in ('STOP', 'RETURN', 'JUMP', 'INVALID', 'REVERT'):
+                out.append(('halt-%s-inserted@%s' % (h, k), dict(log, **{k: ids[:len(ids) // 2] + [h] + ids[len(ids) // 2:]})))
+            out.append(('halt-first@' + k, dict(log, **{k: ['STOP'] + ids})))
         for k2 in keys:
             if k2 != k:
                 out.append(('foreign-ids %s<-%s' % (k, k2), dict(log, **{k: list(log[k2])})))
@@ -246,7 +251,14 @@ class LogRoundTrip(NativeCase):
                 log = json.loads(r1['log'])
                 ts = tamper(log, rnd)
                 if tier == 'quick':
-                    ts = ts[:12]
+                    # one tampered log per operator (the first key it applies to), then the head of the list
+                    first, seen_kinds = [], set()
+                    for kind, tl in ts:
+                        op = kind.split('@')[0].split(' ')[0]
+                        if op not in seen_kinds:
+                            seen_kinds.add(op)
+                            first.append((kind, tl))
+                    ts = first + [t for t in ts[:6] if t not in first]
                 for kind, tl in ts:
                     r3 = pipeline.run_cli(doc, ['-optimize-from-log', 'l.log'] + list(opts), fmt=None, extra_files={'l.log': json.dumps(tl)})
                     n_t += 1
